@@ -183,9 +183,9 @@ def locateCols (t : Table) (cols : Str) : B (List Nat) :=
     | some i => pure i
     | none => throw (.lib "ColumnNotFoundError")
 
-/-- `Reference.__eq__` between a candidate and a member (ignores `inline`). -/
+/-- `Reference.__eq__` between a candidate and a member (ignores `inline` and `comment`). -/
 def refEq (db : Db) (a b : Ref) : Bool :=
-  a.kind == b.kind && a.name == b.name && a.comment == b.comment && a.onUpdate == b.onUpdate
+  a.kind == b.kind && a.name == b.name && a.onUpdate == b.onUpdate
     && a.onDelete == b.onDelete
     && a.col1.length == b.col1.length && a.col2.length == b.col2.length
     && (a.col1.zip b.col1).all (fun (x, y) => Dbml.colEq db a.t1 x b.t1 y)
